@@ -73,6 +73,20 @@ Lemma frag_setup reset nt ep total :
   let '(nt', _, total') := setup_learn_counters reset nt ep total in (nt', total') = setup reset nt total.
 Proof. destruct reset; frag. Qed.
 
+Lemma frag_rthresh v thr : rthresh_continue v thr = lt_thr (Some v) thr.
+Proof. unfold rthresh_continue, lt_thr. lia. Qed.
+
+(* the regenerated decision block of StopTrainingOnNoModelImprovement is the model's step (finite best values) *)
+Lemma frag_noimp nt b mx me v lbv ni :
+  let '(cont, ni', lb') := noimp_block (b_calls b + 1) me v lbv ni mx in
+  dispatchp (Some v) (Step nt) (NoImp b mx me (Some lbv) ni) = (NoImp (base_step nt b) mx me (Some lb') ni', cont).
+Proof.
+  unfold noimp_block. cbn [dispatchp base_step b_calls gt_opt].
+  destruct (me <? b_calls b + 1); [|reflexivity].
+  destruct (lbv <? v); [reflexivity|].
+  destruct (mx <? ni + 1); reflexivity.
+Qed.
+
 (* ------------------------------------------------------------------ unfolding lemmas for dispatch *)
 
 Definition base_ev (e : event) (b : base) : base :=
@@ -80,25 +94,31 @@ Definition base_ev (e : event) (b : base) : base :=
 
 Definition is_step (e : event) : bool := match e with Step _ => true | _ => false end.
 
-Lemma dispatch_clist e b l :
-  dispatch e (CList b l) =
-  (CList (base_ev e b) (map (fun c => fst (dispatch e c)) l),
-   if is_step e then forallb (fun c => snd (dispatch e c)) l else true).
+Lemma dispatchp_clist pb e b l :
+  dispatchp pb e (CList b l) =
+  (CList (base_ev e b) (map (fun c => fst (dispatchp pb e c)) l),
+   if is_step e then forallb (fun c => snd (dispatchp pb e c)) l else true).
 Proof.
   assert (G : forall l,
     (fix go (l : list cb) : list cb * bool :=
        match l with
        | [] => ([], true)
-       | x :: r => let xr := dispatch e x in let rr := go r in (fst xr :: fst rr, (snd xr && snd rr)%bool)
-       end) l = (map (fun c => fst (dispatch e c)) l, forallb (fun c => snd (dispatch e c)) l)).
+       | x :: r => let xr := dispatchp pb e x in let rr := go r in (fst xr :: fst rr, (snd xr && snd rr)%bool)
+       end) l = (map (fun c => fst (dispatchp pb e c)) l, forallb (fun c => snd (dispatchp pb e c)) l)).
   { induction l0 as [|x r IH]; [reflexivity|]. rewrite IH. reflexivity. }
-  destruct e; cbn [dispatch]; rewrite G; reflexivity.
+  destruct e; cbn [dispatchp]; rewrite G; reflexivity.
 Qed.
 
-Lemma dispatch_nonstep_true e c : is_step e = false -> snd (dispatch e c) = true.
+Lemma dispatch_clist e b l :
+  dispatch e (CList b l) =
+  (CList (base_ev e b) (map (fun c => fst (dispatch e c)) l),
+   if is_step e then forallb (fun c => snd (dispatch e c)) l else true).
+Proof. apply dispatchp_clist. Qed.
+
+Lemma dispatch_nonstep_true pb e c : is_step e = false -> snd (dispatchp pb e c) = true.
 Proof.
   intros H. destruct c; destruct e; try discriminate H; try reflexivity;
-    try (rewrite dispatch_clist; reflexivity).
+    try (rewrite dispatchp_clist; reflexivity).
 Qed.
 
 (* ------------------------------------------------------------------ the trace grammar of learn() *)
@@ -344,7 +364,7 @@ Proof.
   induction evs as [|e evs IH]; intros b stop log.
   - cbn. rewrite app_nil_r. reflexivity.
   - cbn [run fold_left base_after rec_entries] in *.
-    destruct e; cbn [dispatch fst]; unfold run in IH; rewrite IH; cbn [base_ev kind_of app];
+    destruct e; cbn [dispatchp fst]; unfold run in IH; rewrite IH; cbn [base_ev kind_of app];
       rewrite <- ?app_assoc; reflexivity.
 Qed.
 
@@ -399,7 +419,7 @@ Proof.
   induction evs as [|e evs IH]; intros b f sv.
   - cbn. rewrite app_nil_r. reflexivity.
   - unfold run in *. cbn [fold_left base_after].
-    destruct e; cbn [dispatch fst steps_of]; rewrite IH; cbn [base_ev b_calls base_ts base_ul]; try reflexivity.
+    destruct e; cbn [dispatchp fst steps_of]; rewrite IH; cbn [base_ev b_calls base_ts base_ul]; try reflexivity.
     cbn [numbered filter fst base_step b_calls].
     destruct (checkpoint_fires (b_calls b + 1) f); [rewrite <- app_assoc|]; reflexivity.
 Qed.
@@ -423,10 +443,10 @@ Lemma dispatch_eval_shape e b f best evals d ob af :
             | _ => []
             end) ob' af'.
 Proof.
-  destruct e; cbn [dispatch base_ev base_step b_calls]; try (rewrite app_nil_r; repeat eexists).
+  destruct e; cbn [dispatchp base_ev base_step b_calls]; try (rewrite app_nil_r; repeat eexists).
   destruct (eval_fires (b_calls b + 1) f).
   - destruct (better (hd 0 evals) best).
-    + destruct (snd (dispatch (Step nt) ob)); repeat eexists.
+    + destruct (snd (dispatchp (Some (hd 0 evals)) (Step nt) ob)); repeat eexists.
     + repeat eexists.
   - rewrite app_nil_r. repeat eexists.
 Qed.
@@ -445,27 +465,113 @@ Proof.
     destruct (eval_fires (b_calls b + 1) f); [rewrite <- app_assoc|rewrite app_nil_r]; reflexivity.
 Qed.
 
-(* who gets on_step below an EvalCallback, for one step event *)
-Theorem eval_children_on_trigger_only nt b f best evals d ob af :
+(* who gets on_step below an EvalCallback, for one step event; the children read the parent's best mean as updated by
+   this very evaluation ([dispatchp (Some mean)] / [dispatchp best]) *)
+Theorem eval_children_on_trigger_only pb nt b f best evals d ob af :
   let c' := b_calls b + 1 in
-  let r := dispatch (Step nt) (EvalC b f best evals d ob af) in
+  let m := hd 0 evals in
+  let r := dispatchp pb (Step nt) (EvalC b f best evals d ob af) in
   (eval_fires c' f = false ->
      r = (EvalC (base_step nt b) f best evals d ob af, true)) /\
-  (eval_fires c' f = true -> better (hd 0 evals) best = false ->
-     r = (EvalC (base_step nt b) f best (tl evals) (d ++ [(c', nt)]) ob (fst (dispatch (Step nt) af)),
-          snd (dispatch (Step nt) af))) /\
-  (eval_fires c' f = true -> better (hd 0 evals) best = true ->
-     r = (EvalC (base_step nt b) f (Some (hd 0 evals)) (tl evals) (d ++ [(c', nt)])
-            (fst (dispatch (Step nt) ob))
-            (if snd (dispatch (Step nt) ob) then fst (dispatch (Step nt) af) else af),
-          if snd (dispatch (Step nt) ob) then snd (dispatch (Step nt) af) else false)).
+  (eval_fires c' f = true -> better m best = false ->
+     r = (EvalC (base_step nt b) f best (tl evals) (d ++ [(c', nt)]) ob (fst (dispatchp best (Step nt) af)),
+          snd (dispatchp best (Step nt) af))) /\
+  (eval_fires c' f = true -> better m best = true ->
+     r = (EvalC (base_step nt b) f (Some m) (tl evals) (d ++ [(c', nt)])
+            (fst (dispatchp (Some m) (Step nt) ob))
+            (if snd (dispatchp (Some m) (Step nt) ob) then fst (dispatchp (Some m) (Step nt) af) else af),
+          if snd (dispatchp (Some m) (Step nt) ob) then snd (dispatchp (Some m) (Step nt) af) else false)).
 Proof.
-  intros c' r. subst c' r. cbn [dispatch base_step b_calls].
+  intros c' m r. subst c' m r. cbn [dispatchp base_step b_calls].
   split; [|split].
   - intros H. rewrite H. reflexivity.
   - intros H H2. rewrite H, H2. reflexivity.
-  - intros H H2. rewrite H, H2. destruct (snd (dispatch (Step nt) ob)); reflexivity.
+  - intros H H2. rewrite H, H2. destruct (snd (dispatchp (Some (hd 0 evals)) (Step nt) ob)); reflexivity.
 Qed.
+
+(* best_mean_reward is updated by strict improvement only and never decreases *)
+Definition eval_best (c : cb) : option Z := match c with EvalC _ _ best _ _ _ _ => best | _ => None end.
+
+Theorem eval_best_update pb e b f best evals d ob af :
+  eval_best (fst (dispatchp pb e (EvalC b f best evals d ob af))) =
+  match e with
+  | Step nt => if eval_fires (b_calls b + 1) f && better (hd 0 evals) best then Some (hd 0 evals) else best
+  | _ => best
+  end.
+Proof.
+  destruct e; cbn [dispatchp base_step b_calls eval_best fst]; try reflexivity.
+  destruct (eval_fires (b_calls b + 1) f); cbn [andb]; [|reflexivity].
+  destruct (better (hd 0 evals) best); [|reflexivity].
+  destruct (snd (dispatchp (Some (hd 0 evals)) (Step nt) ob)); reflexivity.
+Qed.
+
+Theorem eval_best_never_decreases pb e b f best evals d ob af v :
+  best = Some v ->
+  exists v', eval_best (fst (dispatchp pb e (EvalC b f best evals d ob af))) = Some v' /\ v <= v'.
+Proof.
+  intros ->. rewrite eval_best_update. destruct e; try (exists v; split; [reflexivity | lia]).
+  destruct (eval_fires (b_calls b + 1) f && better (hd 0 evals) (Some v))%bool eqn:E.
+  - apply andb_prop in E. destruct E as [_ E]. cbn [better] in E. exists (hd 0 evals). split; [reflexivity | lia].
+  - exists v. split; [reflexivity | lia].
+Qed.
+
+(* StopTrainingOnRewardThreshold: stops iff the parent's best mean has reached the threshold *)
+Theorem thresh_stops_iff pb nt b thr :
+  snd (dispatchp pb (Step nt) (Thresh b thr)) = false <-> exists v, pb = Some v /\ thr <= v.
+Proof.
+  cbn [dispatchp snd]. unfold lt_thr. destruct pb as [v|].
+  - rewrite Z.ltb_ge. split; [intros H; exists v; auto | intros (w & E & H); inversion E; subst; exact H].
+  - split; [discriminate | intros (w & E & _); discriminate E].
+Qed.
+
+(* as callback_on_new_best of an EvalCallback it therefore stops training exactly when a new best mean >= threshold is found *)
+Theorem eval_threshold_stops pb nt b f best evals d thr bt af :
+  eval_fires (b_calls b + 1) f = true -> better (hd 0 evals) best = true ->
+  (snd (dispatchp pb (Step nt) (EvalC b f best evals d (Thresh bt thr) af)) = false <->
+   thr <= hd 0 evals \/ snd (dispatchp (Some (hd 0 evals)) (Step nt) af) = false).
+Proof.
+  intros H1 H2. cbn [dispatchp base_step b_calls]. rewrite H1, H2. cbn [snd fst lt_thr].
+  destruct (hd 0 evals <? thr) eqn:E; cbn [snd].
+  - apply Z.ltb_lt in E. split; [intros H; right; exact H | intros [H|H]; [lia | exact H]].
+  - apply Z.ltb_ge in E. split; [intros _; left; exact E | reflexivity].
+Qed.
+
+(* StopTrainingOnNoModelImprovement, one call *)
+Theorem noimp_step pb nt b mx me lb ni :
+  dispatchp pb (Step nt) (NoImp b mx me lb ni) =
+  let c' := b_calls b + 1 in
+  if me <? c' then
+    if gt_opt pb lb then (NoImp (base_step nt b) mx me pb 0, true)
+    else (NoImp (base_step nt b) mx me pb (ni + 1), negb (mx <? ni + 1))
+  else (NoImp (base_step nt b) mx me pb ni, true).
+Proof. reflexivity. Qed.
+
+Theorem noimp_stops_iff pb nt b mx me lb ni :
+  snd (dispatchp pb (Step nt) (NoImp b mx me lb ni)) = false <->
+  me < b_calls b + 1 /\ gt_opt pb lb = false /\ mx < ni + 1.
+Proof.
+  rewrite noimp_step. cbn zeta. destruct (me <? b_calls b + 1) eqn:A.
+  - apply Z.ltb_lt in A. destruct (gt_opt pb lb); cbn [snd].
+    + split; [discriminate | intros (_ & H & _); discriminate H].
+    + rewrite negb_false_iff, Z.ltb_lt. tauto.
+  - apply Z.ltb_ge in A. cbn [snd]. split; [discriminate | intros (H & _); lia].
+Qed.
+
+(* ConvertCallback(function): the function is called at every step it is delivered, with the step's counters *)
+Theorem conv_run : forall evs b stop log,
+  run evs (Conv b stop log) =
+  Conv (base_after b evs) stop (log ++ filter (fun x => e_kind x =? 2) (rec_entries b evs)).
+Proof.
+  induction evs as [|e evs IH]; intros b stop log.
+  - cbn. rewrite app_nil_r. reflexivity.
+  - unfold run in *. cbn [fold_left base_after rec_entries].
+    destruct e; cbn [dispatchp fst]; rewrite IH; cbn [base_ev kind_of app filter log_entry e_kind Z.eqb];
+      rewrite <- ?app_assoc; reflexivity.
+Qed.
+
+Theorem conv_stops_iff pb nt b stop log :
+  snd (dispatchp pb (Step nt) (Conv b stop log)) = false <-> b_calls b + 1 = stop.
+Proof. cbn [dispatchp snd base_step b_calls]. rewrite negb_false_iff, Z.eqb_eq. reflexivity. Qed.
 
 (* EveryNTimesteps *)
 Fixpoint trig (n last : Z) (nts : list Z) : list Z :=
@@ -491,7 +597,7 @@ Lemma dispatch_everyn_shape e b n last fired ch :
     | _ => EveryN (base_ev e b) n last fired ch'
     end.
 Proof.
-  destruct e; cbn [dispatch base_ev fst]; try (eexists; reflexivity).
+  destruct e; cbn [dispatchp base_ev fst]; try (eexists; reflexivity).
   destruct (everyn_fires nt last n); [exists (fst (dispatch (Step nt) ch)) | exists ch]; reflexivity.
 Qed.
 
@@ -517,7 +623,7 @@ Theorem event_child_on_trigger_only nt b n last fired ch :
      (EveryN (base_step nt b) n nt (fired ++ [nt]) (fst (dispatch (Step nt) ch)), snd (dispatch (Step nt) ch))) /\
   (forall e, e = RS \/ e = RE \/ e = TE -> dispatch e (EveryN b n last fired ch) = (EveryN b n last fired ch, true)).
 Proof.
-  cbn [dispatch]. repeat split.
+  cbn [dispatchp]. repeat split.
   - intros ->. reflexivity.
   - intros ->. reflexivity.
   - intros e [E | [E | E]]; subst e; reflexivity.
@@ -564,9 +670,9 @@ Proof.
   induction evs as [|e evs IH]; intros b total neps.
   - cbn. f_equal. lia.
   - unfold run in *. cbn [fold_left base_after dones_seen].
-    destruct e; cbn [dispatch fst is_step]; rewrite IH; cbn [base_ev]; f_equal; lia.
+    destruct e; cbn [dispatchp fst is_step]; rewrite IH; cbn [base_ev]; f_equal; lia.
 Qed.
 
 Theorem maxep_stops_iff nt b total neps :
   snd (dispatch (Step nt) (MaxEp b total neps)) = false <-> total <= neps + ndones_of b.
-Proof. cbn [dispatch snd]. rewrite Z.ltb_ge. reflexivity. Qed.
+Proof. cbn [dispatchp snd]. rewrite Z.ltb_ge. reflexivity. Qed.
